@@ -137,6 +137,13 @@ func pool() []val {
 		val{"{}", "{}", object.NewMap(nil)},
 		val{"{a:1}", `{"a": 1}`, object.NewMap(map[string]object.Object{"a": in(1)})},
 		val{"{a:1.0}", `{"a": 1.0}`, object.NewMap(map[string]object.Object{"a": fl(1)})},
+		val{"{a:nil}", `{"a": nil}`, object.NewMap(map[string]object.Object{"a": object.Nil})},
+		val{"{b:nil}", `{"b": nil}`, object.NewMap(map[string]object.Object{"b": object.Nil})},
+		val{"{a:nil,b:1}", `{"a": nil, "b": 1}`, object.NewMap(map[string]object.Object{"a": object.Nil, "b": in(1)})},
+		val{"{b:1,c:2}", `{"b": 1, "c": 2}`, object.NewMap(map[string]object.Object{"b": in(1), "c": in(2)})},
+		val{"bytes()", `byte_slice()`, object.NewByteSlice([]byte{})},
+		val{"bytes(a)", `byte_slice("a")`, object.NewByteSlice([]byte("a"))},
+		val{"bytes(1,97)", `byte_slice([1, 97])`, object.NewByteSlice([]byte{1, 97})},
 		val{"set{}", "set()", object.NewSet(nil)},
 		val{"set{1}", "{1}", object.NewSet([]object.Object{in(1)})},
 		val{"set{1.0}", "{1.0}", object.NewSet([]object.Object{fl(1)})},
